@@ -1302,7 +1302,6 @@ class NodeListComprehension:
         values = getCollectionValue(lst, self.what, self.pos)
         for listValue in values:
             localEnv.put(self.identifier, listValue)
-            value = self.valueExpr.evaluate(localEnv)
             if self.conditionExpr:
                 condition = self.conditionExpr.evaluate(localEnv)
                 if not condition.isBoolean():
@@ -1312,10 +1311,9 @@ class NodeListComprehension:
                         f"but got {condition.type()}",
                         self.pos,
                     )
-                if condition.value:
-                    result.addItem(value)
-            else:
-                result.addItem(value)
+                if not condition.value:
+                    continue
+            result.addItem(self.valueExpr.evaluate(localEnv))
         return result
 
     def __repr__(self):
@@ -1385,7 +1383,6 @@ class NodeListComprehensionParallel:
             listValue2 = values2[i] if i < len(values2) else None
             localEnv.put(self.identifier1, listValue1)
             localEnv.put(self.identifier2, listValue2)
-            value = self.valueExpr.evaluate(localEnv)
             if self.conditionExpr:
                 condition = self.conditionExpr.evaluate(localEnv)
                 if not condition.isBoolean():
@@ -1395,10 +1392,9 @@ class NodeListComprehensionParallel:
                         f"got {condition.type()}",
                         self.pos,
                     )
-                if condition.value:
-                    result.addItem(value)
-            else:
-                result.addItem(value)
+                if not condition.value:
+                    continue
+            result.addItem(self.valueExpr.evaluate(localEnv))
         return result
 
     def __repr__(self):
@@ -1475,7 +1471,6 @@ class NodeListComprehensionProduct:
             localEnv.put(self.identifier1, listValue1)
             for listValue2 in values2:
                 localEnv.put(self.identifier2, listValue2)
-                value = self.valueExpr.evaluate(localEnv)
                 if self.conditionExpr:
                     condition = self.conditionExpr.evaluate(localEnv)
                     if not condition.isBoolean():
@@ -1485,10 +1480,9 @@ class NodeListComprehensionProduct:
                             f"but got {condition.type()}",
                             self.pos,
                         )
-                    if condition.value:
-                        result.addItem(value)
-                else:
-                    result.addItem(value)
+                    if not condition.value:
+                        continue
+                result.addItem(self.valueExpr.evaluate(localEnv))
         return result
 
     def __repr__(self):
@@ -1605,8 +1599,6 @@ class NodeMapComprehension:
         values = getCollectionValue(lst, self.what, self.pos)
         for listValue in values:
             localEnv.put(self.identifier, listValue)
-            key = self.keyExpr.evaluate(localEnv)
-            value = self.valueExpr.evaluate(localEnv)
             if self.conditionExpr:
                 condition = self.conditionExpr.evaluate(localEnv)
                 if not condition.isBoolean():
@@ -1616,10 +1608,10 @@ class NodeMapComprehension:
                         f"but got {condition.type()}",
                         self.pos,
                     )
-                if condition.value:
-                    result.addItem(key, value)
-            else:
-                result.addItem(key, value)
+                if not condition.value:
+                    continue
+            key = self.keyExpr.evaluate(localEnv)
+            result.addItem(key, self.valueExpr.evaluate(localEnv))
         return result
 
     def __repr__(self):
@@ -1967,7 +1959,6 @@ class NodeSetComprehension:
         values = getCollectionValue(lst, self.what, self.pos)
         for listValue in values:
             localEnv.put(self.identifier, listValue)
-            value = self.valueExpr.evaluate(localEnv)
             if self.conditionExpr:
                 condition = self.conditionExpr.evaluate(localEnv)
                 if not condition.isBoolean():
@@ -1977,10 +1968,9 @@ class NodeSetComprehension:
                         + condition.type(),
                         self.pos,
                     )
-                if condition.value:
-                    result.addItem(value)
-            else:
-                result.addItem(value)
+                if not condition.value:
+                    continue
+            result.addItem(self.valueExpr.evaluate(localEnv))
         return result
 
     def __repr__(self):
@@ -2043,7 +2033,6 @@ class NodeSetComprehensionParallel:
             localEnv.put(
                 self.identifier2, values2[i] if i < len(values2) else NULL
             )
-            value = self.valueExpr.evaluate(localEnv)
             if self.conditionExpr:
                 condition = self.conditionExpr.evaluate(localEnv)
                 if not condition.isBoolean():
@@ -2053,10 +2042,9 @@ class NodeSetComprehensionParallel:
                         + condition.type(),
                         self.pos,
                     )
-                if condition.value:
-                    result.addItem(value)
-            else:
-                result.addItem(value)
+                if not condition.value:
+                    continue
+            result.addItem(self.valueExpr.evaluate(localEnv))
         return result
 
     def __repr__(self):
@@ -2127,7 +2115,6 @@ class NodeSetComprehensionProduct:
             localEnv.put(self.identifier1, value1)
             for value2 in values2:
                 localEnv.put(self.identifier2, value2)
-                value = self.valueExpr.evaluate(localEnv)
                 if self.conditionExpr:
                     condition = self.conditionExpr.evaluate(localEnv)
                     if not condition.isBoolean():
@@ -2137,10 +2124,9 @@ class NodeSetComprehensionProduct:
                             + condition.type(),
                             self.pos,
                         )
-                    if condition.value:
-                        result.addItem(value)
-                else:
-                    result.addItem(value)
+                    if not condition.value:
+                        continue
+                result.addItem(self.valueExpr.evaluate(localEnv))
         return result
 
     def __repr__(self):
